@@ -147,11 +147,11 @@ class C05(Plugin):
         for rec, cs, mg, ap in ops:
             p, u, ps, us, pat = rec
             if ap:
-                f = lambda: c.add_prefix(p, u, list(ps), list(us), case_sensitive=bool(cs), merge=bool(mg))
+                f = lambda: c.add_prefix(p, u, list(ps), list(us), **qprops.flags(case_sensitive=bool(cs), merge=bool(mg)))
             else:
                 def f():
                     r = curies.Record(prefix=p, uri_prefix=u, prefix_synonyms=list(ps), uri_prefix_synonyms=list(us), pattern=pat.v if pat else None)
-                    c.add_record(r, case_sensitive=bool(cs), merge=bool(mg))
+                    c.add_record(r, **qprops.flags(case_sensitive=bool(cs), merge=bool(mg)))
             out = step_outcome(f)
             steps.append([out, obs_conv(c, strs, pairs)])
         return case, [0, st0, steps]
